@@ -137,17 +137,28 @@ class Accumulator:
         self.samples_nt = []
         self.samples_tr = []
         self.extra = {}
+        self.enum_cases = 0
+        self.enum_nontrivial = 0
 
-    def add(self, case, res):
+    def add(self, case, res, enumerated=False, skip_nt=False):
+        """enumerated=True: the case comes from an exhaustive enumeration (distinct by construction; counted, not
+        hashed).  skip_nt=True: a generated case that the enumeration of this run also covers (not counted twice)."""
         self.evaluations += 1
-        h = case_hash(case)
-        self.distinct.add(h)
-        if res.nontrivial:
-            self.nontrivial.add(h)
-            if len(self.samples_nt) < self.MAX_SAMPLES:
-                self.samples_nt.append(case)
-        elif len(self.samples_tr) < 1:
-            self.samples_tr.append(case)
+        if enumerated:
+            self.enum_cases += 1
+            if res.nontrivial:
+                self.enum_nontrivial += 1
+                if len(self.samples_nt) < self.MAX_SAMPLES and self.enum_nontrivial % 997 == 1:
+                    self.samples_nt.append(case)
+        else:
+            h = case_hash(case)
+            self.distinct.add(h)
+            if res.nontrivial and not skip_nt:
+                self.nontrivial.add(h)
+                if len(self.samples_nt) < self.MAX_SAMPLES:
+                    self.samples_nt.append(case)
+            elif len(self.samples_tr) < 1:
+                self.samples_tr.append(case)
         for c in res.classes:
             self.classes[c] = self.classes.get(c, 0) + 1
         if res.aborted:
@@ -168,6 +179,8 @@ class Accumulator:
 
     def merge(self, other):
         self.evaluations += other.evaluations
+        self.enum_cases += other.enum_cases
+        self.enum_nontrivial += other.enum_nontrivial
         self.nontrivial |= other.nontrivial
         self.distinct |= other.distinct
         for k, v in other.classes.items():
@@ -209,6 +222,7 @@ def _hyp_shard(args):
         strat = mod.strategy(tier)
 
         keep = [] if getattr(mod, "KEEP_CASES", False) else None
+        covered = getattr(mod, "is_enumerated", None) if (tier == "thorough" and hasattr(mod, "enumerate_cases")) else None
 
         @hypothesis.seed(seed * 1000 + shard)
         @settings(max_examples=n, database=None, deadline=None, derandomize=False,
@@ -218,7 +232,7 @@ def _hyp_shard(args):
         def prop_fn(case):
             with silence():
                 res = mod.run_case(case)
-            acc.add(case, res)
+            acc.add(case, res, skip_nt=bool(covered and covered(case)))
             if keep is not None:
                 keep.append((case, res))
 
@@ -239,9 +253,8 @@ def _enum_shard(args):
         for case in mod.enumerate_cases(tier, shard, nshards):
             with silence():
                 res = mod.run_case(case)
-            acc.add(case, res)
+            acc.add(case, res, enumerated=True)
             n += 1
-        acc.extra["enumerated"] = n
         return ("ok", acc)
     except BaseException:
         return ("err", traceback.format_exc())
